@@ -92,6 +92,17 @@ def scenarios(sch):
         {'op': 'set', 'v': b7(rA), 'freeze': True}, {'op': 'w'},
         {'op': 'set', 'v': b7(rB), 'freeze': True},
         {'op': 'set', 'v': b7(rC), 'freeze': True}, {'op': 'w'}, {'op': 'f'}]))
+    # S10: an element created outside and handed over with Append, then modified through At(i)
+    # (DESIGN D15: the appended struct keeps the parent link it was created with)
+    span0 = [[[]], ['', [], '0'], ['', '', '', [], '0'],
+             ['aa', 'bb', '', '', '0', '6e', '1', '10', '20', [], '0', [], [], ['', '0']]]
+    out.append(dict(id='S10-append-then-modify', root='Spans', ops=[
+        {'op': 'set', 'v': span0},
+        {'op': 'call', 'path': ['Span', 'Events'], 'm': 'Append', 'args': ['new']},
+        {'op': 'call', 'path': ['Span', 'Events', 'At:0'], 'm': 'SetName', 'args': ['s:61']},
+        {'op': 'w'},
+        {'op': 'call', 'path': ['Span', 'Events', 'At:0'], 'm': 'SetName', 'args': ['s:62']},
+        {'op': 'w'}, {'op': 'f'}]))
     return out
 
 
